@@ -27,4 +27,7 @@ generate, project, oracle, nontrivial, stats = _world.make(
         # removals whose on_remove callback raises
         dict(n_comp=(2, 6), n_proc=(0, 3), handlers=0.8, raises=0.8,
              w=dict(remove=7, rmproc=3, addproc=4, delete=1, process=0.5, clear=0.2, enable=0.2, dispatch=0)),
+        dict(n_comp=(2, 6), n_proc=(0, 3), handlers=0.9, reenter=0.95,
+             w=dict(create=5, add=6, remove=6, rmproc=2, addproc=3, delete=3, process=1, clear=0.2, enable=0.2,
+                    dispatch=0)),
     ])
